@@ -135,6 +135,14 @@ func (o *PipelineOracle) applyToRefIn(w *World, s *Step) {
 		return // family not configured: NLRI are ignored
 	}
 	_, ap := p.UpdateOpts(s.V6)
+	for i, pfx := range s.Wd {
+		// withdrawn routes of a mixed UPDATE (never the prefixes it announces)
+		id := uint32(0)
+		if ap && i < len(s.WdIDs) {
+			id = s.WdIDs[i]
+		}
+		delete(o.refIn[s.Peer], viewKey{pfx, id})
+	}
 	for i, pfx := range s.Pfx {
 		id := s.PathID
 		if i < len(s.PathIDs) {
